@@ -277,7 +277,7 @@ theorem binReadBinary_ok (cfg : DecCfg) (c : SpanCache) (h : Heap) (buf : Slice)
     h'.view s = h.bytes buf.obj (buf.off + 4) (l - 4) ∧
     s.CapDisjoint buf ∧ (∀ f : Slice, Below c h f → s.CapDisjoint f ∧ Below c' h' f) ∧ Below c' h' s ∧
     CacheInv c' h' ∧ OnlyWrote h h' s ∧ h'.faults = h.faults ∧ h.size ≤ h'.size ∧
-    (∃ x, h'.obj? s.obj = some x ∧ x.owner = .gc ∧ s.off + s.cap ≤ x.data.length) := by
+    ((∃ x, h'.obj? s.obj = some x ∧ x.owner = .gc ∧ s.off + s.cap ≤ x.data.length) ∧ Keeps h h') := by
   obtain ⟨hlc, xi, hxi, hbi, hfi⟩ := hin
   unfold binReadBinary at hrun
   by_cases h4 : buf.len < 4
@@ -336,7 +336,7 @@ theorem binReadBinary_ok (cfg : DecCfg) (c : SpanCache) (h : Heap) (buf : Slice)
               (by rw [hxg]; decide) (by rw [hxg]; intro hc'; cases hc')]
             rfl
           · rw [hss.size]; simp
-          · exact ⟨x2, hx2, by rw [ho2]; exact hxg, by simp; omega⟩
+          · exact ⟨⟨x2, hx2, by rw [ho2]; exact hxg, by simp; omega⟩, Keeps.of_extends hExt2⟩
         · -- spanCache.Copy(buf[4:l])
           rw [hso] at hrun
           simp only [if_true, Prod.mk.injEq, Except.ok.injEq] at hrun
@@ -379,7 +379,7 @@ theorem binReadBinary_ok (cfg : DecCfg) (c : SpanCache) (h : Heap) (buf : Slice)
               (by rw [hxmg]; decide) (by rw [hxmg]; intro hc'; cases hc')]
             exact m5
           · rw [hss.size]; exact hsz
-          · exact ⟨x2, hx2, by rw [ho2]; exact hxmg, by omega⟩
+          · exact ⟨⟨x2, hx2, by rw [ho2]; exact hxmg, by omega⟩, (Keeps.of_extends m4).trans hk⟩
 
 /-- the outcome of Binary.ReadBinary as far as it does not involve the allocator: the error, or `l` -/
 def binHead (h : Heap) (buf : Slice) : Except (TErr × Nat) Nat :=
@@ -411,6 +411,29 @@ theorem binReadBinary_head (cfg : DecCfg) (c : SpanCache) (h : Heap) (buf : Slic
           · exact ⟨_, rfl⟩
         obtain ⟨s, e⟩ := e
         rw [e]; unfold binHead; rw [if_neg h4]; simp only [hneg, hshort, ↓reduceIte]
+
+/-- a failing Binary.ReadBinary changes nothing (the span cache is not consulted, nothing is allocated) -/
+theorem binReadBinary_err (cfg : DecCfg) (c : SpanCache) (h : Heap) (buf : Slice) (e : TErr × Nat)
+    (c' : SpanCache) (h' : Heap) (hin : InputOK h buf)
+    (hrun : binReadBinary cfg c h buf = (.error e, c', h')) : c' = c ∧ h' = h := by
+  obtain ⟨_, xi, hxi, hbi, hfi⟩ := hin
+  unfold binReadBinary at hrun
+  by_cases h4 : buf.len < 4
+  · rw [if_pos h4] at hrun; simp only [Prod.mk.injEq] at hrun; exact ⟨hrun.2.1.symm, hrun.2.2.symm⟩
+  · rw [if_neg h4] at hrun
+    simp only [] at hrun
+    have hrd : (h.read buf.obj buf.off 4).2 = h := by
+      unfold Heap.read; simp only []
+      exact chk_read_ok h _ _ _ xi hxi (by omega) hfi
+    rw [hrd] at hrun
+    generalize toI32 (rd32 (h.read buf.obj buf.off 4).1) = sz at hrun
+    by_cases hneg : sz < 0
+    · rw [if_pos hneg] at hrun; simp only [Prod.mk.injEq] at hrun; exact ⟨hrun.2.1.symm, hrun.2.2.symm⟩
+    · rw [if_neg hneg] at hrun
+      by_cases hshort : buf.len < 4 + sz.toNat
+      · rw [if_pos hshort] at hrun; simp only [Prod.mk.injEq] at hrun; exact ⟨hrun.2.1.symm, hrun.2.2.symm⟩
+      · rw [if_neg hshort] at hrun
+        cases hso : cfg.spanOn <;> (rw [hso] at hrun; simp at hrun)
 
 /-! ## reader operations never touch Go-heap objects (other than an explicit ReadBinary destination) -/
 
